@@ -157,14 +157,17 @@ func (m *evidenceMonitor) BlockCommitted(s *Sim, node int, block *types.Block, i
 				unsigned := common.BytesToHash(append([]byte("third-entry-"), rs[i].hash[:8]...))
 				garbage := append([]byte(nil), rs[i].sig...)
 				garbage[len(garbage)-1] ^= 0x5a
-				for _, sig := range [][]byte{garbage, rs[i].sig} {
-					cands = append(cands, cand{a: rs[i], b: rs[i], what: "three-entries kinds=" + kindPair(rs[i], rs[i]) + " (one signature twice, then an unsigned other hash)",
-						extra: []*staking.SignInfo{{Hash: unsigned, Sign: sig}}})
-				}
+				// alternately a damaged signature and the genuine one (which does not sign that hash)
+				sig := [][]byte{garbage, rs[i].sig}[i%2]
+				cands = append(cands, cand{a: rs[i], b: rs[i], what: "three-entries kinds=" + kindPair(rs[i], rs[i]) + " (one signature twice, then an unsigned other hash)",
+					extra: []*staking.SignInfo{{Hash: unsigned, Sign: sig}}})
 			}
 			for _, cd := range cands {
 				// any claimed vote type: the signed payload carries none
-				for _, claimed := range []uint8{staking.Prevote, staking.Precommit, staking.NextIndex} {
+				for ci, claimed := range []uint8{staking.Prevote, staking.Precommit, staking.NextIndex} {
+					if len(cd.extra) > 0 && ci != int(ri+uint32(cd.a.kind))%3 {
+						continue // three-entry lists: one claimed type each (rotating), they cost a full evaluation
+					}
 					key := fmt.Sprintf("%d/%x/%d/%d/%x/%x/%d/%d", node, a[:4], round, ri, cd.a.sig[:6], cd.b.sig[:6], claimed, len(cd.extra))
 					if len(cd.extra) > 0 {
 						key += fmt.Sprintf("/%x", cd.extra[0].Sign[len(cd.extra[0].Sign)-2:])
